@@ -47,16 +47,17 @@ type Ctx struct {
 	Only    string // when set, only the case with this id is executed (replay)
 	WorkDir string // scratch directory private to this worker (removed by the driver)
 
-	mu       sync.Mutex
-	evals    int64
-	distinct map[string]struct{}
-	counters map[string]int64
-	sets     map[string]map[string]struct{}
-	samples  []json.RawMessage
-	viols    []Violation
-	journal  *os.File
-	curCase  string
-	after    string // resume: skip every case up to and including this id
+	mu        sync.Mutex
+	evals     int64
+	distinct  map[string]struct{}
+	counters  map[string]int64
+	sets      map[string]map[string]struct{}
+	samples   []json.RawMessage
+	viols     []Violation
+	journal   *os.File
+	curCase   string
+	after     string // resume: skip every case up to and including this id
+	firstCase string
 }
 
 func NewCtx(prop, tier string, seed int64, shard, nshards int, journalPath string) *Ctx {
@@ -149,6 +150,9 @@ func (c *Ctx) Case(id string, fn func()) bool {
 	}
 	c.mu.Lock()
 	c.curCase = id
+	if c.firstCase == "" {
+		c.firstCase = id
+	}
 	if c.journal != nil {
 		fmt.Fprintln(c.journal, id)
 	}
@@ -275,6 +279,11 @@ func (c *Ctx) Result() *Result {
 		r.Counters[k] = v
 	}
 	r.Samples = append(r.Samples, c.samples...)
+	if len(r.Samples) == 0 && c.firstCase != "" {
+		// every run shows at least one of the cases it executed
+		b, _ := json.Marshal(map[string]string{"case": c.firstCase})
+		r.Samples = append(r.Samples, b)
+	}
 	r.Violations = append(r.Violations, c.viols...)
 	for k := range c.distinct {
 		r.Distinct = append(r.Distinct, k)
